@@ -1,4 +1,132 @@
-import NriModel.Basic
-/-! Property theorems for C12 — placeholder until the model is written. -/
+import NriModel.Wire
+import NriModel.Extracted.ApiSchema
+import NriModel.Lemmas.WireProps
+/-!
+Property theorems for C12 — both wire encodings of every protocol message agree.
+
+What is proved here is about the *reference codec* `Nri.Wire` (encode / decode / size,
+generic in the schema) and its instantiation to the schema regenerated from the descriptor
+compiled into `pkg/api/api.pb.go`. The two generated Go codecs are tied to this reference
+codec by the correspondence run (both directions); their 12 640 generated lines are not
+themselves verified.
+
+Normal form of values: a message value is the list of its field values in schema order;
+a proto3 implicit-presence field (scalar, string) that is zero/empty *is* the absent field
+(nothing is written, nothing needs to be read), a repeated field or map with no element is
+the absent one, and only a singular message field has presence (`Val.none` vs `Val.msg _`).
+-/
 namespace Nri.Props.C12
+open Nri.Wire Nri.Wire.Extracted
+
+/-- a small schema for the non-vacuity examples (the generated one is re-indexed whenever
+    api.proto changes): `Inner {int64 value = 1}`,
+    `Outer {string id = 1; Inner opt = 2; repeated Inner items = 3; map<string,string> labels = 4;
+            repeated string args = 5; int32 code = 6; bool flag = 7}` -/
+def demo : Schema := [
+  { name := "Inner", fields := [ { name := "value", num := 1, ty := .scalar .int64 } ] },
+  { name := "Outer", fields := [
+      { name := "id", num := 1, ty := .string },
+      { name := "opt", num := 2, ty := .msg 0 },
+      { name := "items", num := 3, ty := .repMsg 0 },
+      { name := "labels", num := 4, ty := .mapSS },
+      { name := "args", num := 5, ty := .repString },
+      { name := "code", num := 6, ty := .scalar .int32 },
+      { name := "flag", num := 7, ty := .scalar .bool } ] } ]
+
+/-- `Outer{id:"a", opt:&Inner{}, items:[{-1},{}], labels:{"k":"v"}, args:["","x"], code:-2, flag:true}` -/
+def demoVal : List Val :=
+  [.str [97], .msg [.int 0], .list [.msg [.int (-1)], .msg [.int 0]], .smap [([107], [118])],
+   .strs [[], [120]], .int (-2), .int 1]
+
+/-- Varints of 64-bit quantities round trip, whatever follows them. -/
+theorem varint_roundtrip (n : Nat) (h : n < 2 ^ 64) (r : Bytes) :
+    decodeVarint (encodeVarint n ++ r) = some (n, r) :=
+  decodeVarint_encodeVarint n r h
+
+example : decodeVarint (encodeVarint (2 ^ 64 - 1) ++ [7]) = some (2 ^ 64 - 1, [7]) := by decide
+example : encodeVarint 300 = [172, 2] := by decide
+
+/-- The regenerated schema of `pkg/api` is well-formed (legal, distinct field numbers; only
+    modelled field kinds; every message reference resolves) — so every generic theorem
+    below applies to every message type of the descriptor. Re-decided on every run. -/
+theorem schema_wf : apiSchema.WF = true := by decide
+
+/-- …and the generator met nothing outside the model. -/
+theorem schema_supported : unsupportedFeatures = [] := by decide
+
+/-- **Round trip**: for every well-formed schema, every message type and every well-typed
+    value, decoding the encoding returns the value. (`hlen`: length prefixes are 64-bit.) -/
+theorem C12_roundtrip (S : Schema) (hS : S.WF = true) (m : Nat) (v : List Val)
+    (hv : WellTyped S m v = true) (hlen : (encode S m v).length < 2 ^ 64) :
+    decode S m (encode S m v) = some v :=
+  decode_encode S hS m v hv hlen
+
+example : demo.WF = true := by decide
+example : WellTyped demo 1 demoVal = true := by decide
+example : (encode demo 1 demoVal).length < 2 ^ 64 := by decide
+example : decode demo 1 (encode demo 1 demoVal) = some demoVal :=
+  C12_roundtrip demo (by decide) 1 demoVal (by decide) (by decide)
+
+/-- the same, for every message type of the nri protocol -/
+theorem C12_roundtrip_api (m : Nat) (v : List Val) (hv : WellTyped apiSchema m v = true)
+    (hlen : (encode apiSchema m v).length < 2 ^ 64) :
+    decode apiSchema m (encode apiSchema m v) = some v :=
+  C12_roundtrip apiSchema schema_wf m v hv hlen
+
+/-- **Size**: the size computed field by field (what `SizeVT` does) is the number of bytes
+    the encoder writes — for every schema and every value, typed or not. -/
+theorem C12_size (S : Schema) (m : Nat) (v : List Val) : (encode S m v).length = size S m v :=
+  encode_length S m v
+
+example : size demo 1 demoVal = 46 ∧ (encode demo 1 demoVal).length = 46 := by decide
+
+/-- No two distinct well-typed values share an encoding. -/
+theorem C12_injective (S : Schema) (hS : S.WF = true) (m : Nat) (v w : List Val)
+    (hv : WellTyped S m v = true) (hw : WellTyped S m w = true)
+    (hlv : (encode S m v).length < 2 ^ 64) (h : encode S m v = encode S m w) : v = w := by
+  have h1 := C12_roundtrip S hS m v hv hlv
+  have h2 := C12_roundtrip S hS m w hw (h ▸ hlv)
+  rw [h] at h1
+  exact Option.some.inj (h1.symm.trans h2)
+
+/-- **Presence**: in every message, an absent singular message field and the same field
+    present with all-default content are different values, have different encodings, and
+    decode back to the two different values. -/
+theorem C12_presence (S : Schema) (hS : S.WF = true) (m : Nat) (v : List Val) (i : Nat)
+    (f : Field) (m' : Nat) (hv : WellTyped S m v = true)
+    (hf : (S.fieldsOf m)[i]? = some f) (hty : f.ty = .msg m')
+    (h0 : (encode S m (v.set i .none)).length < 2 ^ 64)
+    (h1 : (encode S m (v.set i (.msg (emptyMsg S m')))).length < 2 ^ 64) :
+    let absent := v.set i .none
+    let present := v.set i (.msg (emptyMsg S m'))
+    decode S m (encode S m absent) = some absent ∧
+    decode S m (encode S m present) = some present ∧
+    decode S m (encode S m absent) ≠ decode S m (encode S m present) ∧
+    encode S m absent ≠ encode S m present := by
+  intro absent present
+  have hi : i < v.length := by
+    have := wtFields_length S _ _ hv
+    have := (List.getElem?_eq_some_iff.mp hf).1
+    omega
+  have wa : WellTyped S m absent = true :=
+    wtFields_set S _ v i f .none hv hf (by simp [hty, wtVal])
+  have wp : WellTyped S m present = true :=
+    wtFields_set S _ v i f _ hv hf (by
+      simp only [hty, wtVal]; exact wellTyped_emptyMsg S hS m')
+  have ra := C12_roundtrip S hS m absent wa h0
+  have rp := C12_roundtrip S hS m present wp h1
+  have hne : absent ≠ present := by
+    intro e
+    have := congrArg (fun l => l[i]?) e
+    simp [absent, present, hi] at this
+  refine ⟨ra, rp, ?_, ?_⟩
+  · rw [ra, rp]; exact fun e => hne (Option.some.inj e)
+  · intro e; rw [e, rp] at ra; exact hne (Option.some.inj ra).symm
+
+example : encode demo 1 (demoVal.set 1 .none) ≠ encode demo 1 (demoVal.set 1 (.msg (emptyMsg demo 0))) :=
+  (C12_presence demo (by decide) 1 demoVal 1 { name := "opt", num := 2, ty := .msg 0 } 0 (by decide) rfl rfl (by decide) (by decide)).2.2.2
+example : encode demo 1 [.str [], .msg [.int 0], .list [], .smap [], .strs [], .int 0, .int 0] = [18, 0] := by
+  decide
+example : encode demo 1 [.str [], .none, .list [], .smap [], .strs [], .int 0, .int 0] = [] := by decide
+
 end Nri.Props.C12
